@@ -297,6 +297,8 @@ def replay(sh, payload):
     r = payload["replay"]
     if "spec" in r:
         print(sh.w.compile({k: v for k, v in r["spec"].items() if not k.startswith("_")}))
+    elif "files" in r:
+        print(sh.w.compile({k: v for k, v in r.items() if not k.startswith("_")}))
     else:
         print(sh.w.compile({"text": r["text"], "syntax": r["syntax"], "quiet": r.get("quiet", False)}))
     return "see output"
